@@ -20,7 +20,7 @@
      - the scheduler model [step_choice] is not tied to LaunchedSim::step by a per-run
        correspondence other than end-to-end outcome sets. *)
 From Coq Require Import List Arith Bool NArith Permutation.
-From HV Require Import Sim.Model Sim.PHooks Sim.PTick Sim.PComplete Sim.PCompleteK Sim.PCompleteTick Sim.PUniqueK.
+From HV Require Import Sim.Model Sim.PHooks Sim.PTick Sim.PComplete Sim.PCompleteK Sim.PCompleteTick Sim.PUniqueK Sim.ModelTop Sim.PTop.
 Import ListNotations.
 Close Scope N_scope.
 
@@ -164,6 +164,18 @@ Proof.
   - intros Hnd d1 d2 H1 H2. eapply drain_order_unique; eauto.
 Qed.
 Print Assumptions C37_scheduler_every_order.
+
+(* observation / inline hooks (unkeyed): every pending element can be observed next; every
+   order-preserving interleaving of a merge_ordered is observed *)
+Theorem C37_top_order_every_element : forall (A : Type) force (a b : list A) x,
+  exists ds, decide_top_order force (a ++ x :: b) ds = Ok ([x], a ++ b, [], true).
+Proof. intros A. exact (@top_order_complete A). Qed.
+Print Assumptions C37_top_order_every_element.
+
+Theorem C37_inline_merge_every_interleaving : forall (A : Type) (a b out : list A),
+  Merge a b out -> exists ds, decide_merge a b ds = Ok (out, []).
+Proof. intros A. exact (@merge_complete A). Qed.
+Print Assumptions C37_inline_merge_every_interleaving.
 
 (* non-vacuity *)
 Example C37_ex_subset :
